@@ -139,7 +139,7 @@ func (t *Topo) List(ctx context.Context, filters *topoapi.Filters) ([]topoapi.Ob
 		o := t.objs[topoapi.ID(id)]
 		if filters != nil && filters.RelationFilter != nil {
 			r := o.GetRelation()
-			if r == nil || string(r.KindID) != filters.RelationFilter.RelationKind || string(r.SrcEntityID) != filters.RelationFilter.SrcId {
+			if r == nil || string(r.KindID) != filters.RelationFilter.RelationKind || (filters.RelationFilter.SrcId != "" && string(r.SrcEntityID) != filters.RelationFilter.SrcId) {
 				continue
 			}
 		}
